@@ -14,7 +14,18 @@ binding
   (b) for -c outputs: extern "C" redeclarations and function-pointer-type assertions synthesised ONLY from the
       database (wrapper name, return and parameter types, structurally: atomic token / pointer / const / named)
       are compiled in one translation unit with the generated -oc file; the -fptrs / -unique-names tables are
-      checked against wrapper indices; every wrapper the database calls callable-by-name must be defined (nm).
+      checked against wrapper indices; every wrapper the database calls callable-by-name must be defined exactly
+      once (source text and nm).
+  (c) links BY NAME: owner and builder-naming rules (IdbDB: OwnerViol, BuilderNameViol) and the ground truth of the
+      header (every MAKE_* declaration: which function each element / make_seq field must name) are evaluated by
+      TLC on every dump, so that a stale index that lands on another live function is caught as well; the check
+      measures, per index-valued field of every record kind, in how many databases it is non-zero (a field that is
+      never exercised is a machinery error).
+  (d) wrapper names: spec IdbHash (hash_function_signature over abstract hashes: names pairwise distinct for every
+      sequence of colliding signatures); every dumped sequence is realised with concrete signatures that collide in
+      exactly those hashes (a Python port of hash_string, validated on every run against the names interrogate
+      gives a control library) and the names in the database, in the code and in the -unique-names table are
+      compared with the spec's.
 """
 import json, os, re, subprocess
 from ..common import MachineryError, REPO, SHIMS
@@ -76,6 +87,145 @@ def synth(raw):
     return sorted(out)
 
 
+# ---------------------------------------------------------------------------------------------
+# (d) wrapper-name collisions
+HCLS = "Hk"
+
+
+def _sig(name):
+    return "%s::%s(int)" % (HCLS, name)
+
+
+def hash_families():
+    """Concrete method names for the abstract hash classes (h1, h2) of IdbHash: permuting characters 24 positions
+    apart keeps both hashes (both rotate by position mod 24); moving weight between two characters whose
+    first-hash shifts differ by one bit keeps the first hash only.  Everything is verified with the port."""
+    import itertools
+    hs = _idbm.hash_string
+    fam = {}
+    for a, filler in ((0, "x"), (1, "y")):
+        base = "a" + filler * 23 + "b" + filler * 23 + "c" + filler * 3
+        tw = None
+        for p in range(1, len(base) - 5):
+            q = p + 5
+            if {p, q} & {0, 24, 48}:
+                continue
+            for dp, dq in ((2, -1), (-2, 1), (1, -2), (-1, 2)):
+                cand = list(base)
+                cand[p] = chr(ord(cand[p]) + dp)
+                cand[q] = chr(ord(cand[q]) + dq)
+                cand = "".join(cand)
+                if cand.isalnum() and hs(_sig(cand), 5) == hs(_sig(base), 5) and hs(_sig(cand), 11) != hs(_sig(base), 11):
+                    tw = cand
+                    break
+            if tw:
+                break
+        if not tw:
+            raise MachineryError("no first-hash-only collision found for the signature family %r" % base)
+        for b, nm in ((0, base), (1, tw)):
+            members = []
+            for perm in itertools.permutations((nm[0], nm[24], nm[48])):
+                m = list(nm)
+                m[0], m[24], m[48] = perm
+                members.append("".join(m))
+            if len({(hs(_sig(m), 5), hs(_sig(m), 11)) for m in members}) != 1 or len(set(members)) != 6:
+                raise MachineryError("permutation family of %r does not collide in both hashes" % nm)
+            fam[(a, b)] = members
+    h5 = {k: hs(_sig(v[0]), 5) for k, v in fam.items()}
+    h11 = {k: hs(_sig(v[0]), 11) for k, v in fam.items()}
+    if not (h5[(0, 0)] == h5[(0, 1)] != h5[(1, 0)] == h5[(1, 1)] and h11[(0, 0)] != h11[(0, 1)] and h11[(1, 0)] != h11[(1, 1)]):
+        raise MachineryError("hash families do not realise the abstract classes: %r %r" % (h5, h11))
+    for ctor in ("%s::%s()" % (HCLS, HCLS),):
+        if hs(ctor, 5) in h5.values():
+            raise MachineryError("constructor signature collides with a family")
+    return fam
+
+
+def hash_cases(ctx, work, hd, H):
+    """Returns the (tag, header name, backend, opts) entries of the collision libraries after comparing the
+    wrapper names in their databases with IdbHash's."""
+    res = tlc.run("IdbHashMC", "IdbHash_%s" % ctx.tier, env={"VERIF_DUMP": os.path.join(work, "hash.ndjson")}, timeout=600)
+    ctx.add_tlc(res)
+    if res.verdict == "invariant":
+        raise MachineryError("IdbHash: invariant %s violated in the model\n%s" % (res.violated, res.out[-2000:]))
+    tlc.must_ok(res, "IdbHash")
+    behs = sorted(tlc.read_dump(os.path.join(work, "hash.ndjson")), key=lambda b: json.dumps(b))
+    if not behs:
+        raise MachineryError("IdbHash dumped nothing")
+    fam = hash_families()
+    hs = _idbm.hash_string
+    opts = ("-fnames", "-fptrs", "-unique-names")
+    # control: the port must reproduce the names of a library without collisions
+    ctl = "hctl"
+    H[ctl] = _idbm._hdr(ctl, "class Ctl {\nPUBLISHED:\n  Ctl();\n  int alpha(int a, float b) const;\n  static void beta();\n};\n")
+    jobs = [(ctl, None)]
+    for bi, b in enumerate(behs):
+        n = "hb%03d" % bi
+        used, meths = {}, []
+        for a, c in b["cls"]:
+            k = used.get((a, c), 0)
+            used[(a, c)] = k + 1
+            meths.append(fam[(a, c)][k])
+        H[n] = _idbm._hdr(n, "class %s {\nPUBLISHED:\n  %s();\n%s};\n" % (HCLS, HCLS, "".join("  int %s(int v);\n" % m for m in meths)))
+        jobs.append((n, (b, meths)))
+    for n, _ in jobs:
+        open(os.path.join(hd, n + ".h"), "w").write(H[n])
+
+    def gen(j):
+        n, info = j
+        tag = n + "-c" + "".join(opts)
+        r, args = _idbm.interrogate(hd, n, "lib" + n, tag, backend="-c", opts=opts)
+        return j, tag, r
+    out = []
+    lines = []
+    tags = {}
+    for (n, info), tag, r in run.pmap(gen, jobs):
+        if r.rc != 0 or not r.outputs.get(tag + ".in"):
+            raise MachineryError("interrogate rejected the collision library %s: %s" % (n, r.stderr[-400:]))
+        tags[n] = tag
+        lines += ["case " + tag, "reqdb " + os.path.join(hd, tag + ".in"), "raw", "end"]
+    got, _ = _idbm.run_script(lines, work, "hashdump")
+
+    def names_of(tag):
+        raw = [x for x in got[tag] if x.get("op") == "raw"][0]
+        W = {w["i"]: w for w in raw["w"]}
+        return {f["sn"]: [(W[i]["n"], W[i]["un"]) for i in f["cw"] if i in W] for f in raw["f"]}
+    # control
+    lh = hs("lib" + ctl, 5)
+    got_ctl = names_of(tags[ctl])
+    want_ctl = {"Ctl::alpha": "Ctl::alpha(int, float) const", "Ctl::beta": "Ctl::beta()", "Ctl::Ctl": "Ctl::Ctl()"}
+    for fsn, sig in want_ctl.items():
+        exp = ("_inC" + lh + hs(sig, 5), "c" + lh + hs(sig, 5))
+        if exp not in got_ctl.get(fsn, []):
+            raise MachineryError("the Python port of hash_string does not reproduce interrogate's names: %s expected %r, "
+                                 "database has %r" % (sig, exp, got_ctl.get(fsn)))
+    # collision libraries
+    n_ok = 0
+    for n, info in jobs:
+        if info is None:
+            continue
+        b, meths = info
+        lh = hs("lib" + n, 5)
+        have = names_of(tags[n])
+        for m, nm in zip(meths, b["names"]):
+            tail = hs(_sig(m), 5) + (hs(_sig(m), 11) if len(nm) >= 2 else "") + (chr(96 + nm[2]) if len(nm) == 3 else "")
+            exp = [("_inC" + lh + tail, "c" + lh + tail)]
+            if have.get(HCLS + "::" + m) != exp:
+                ctx.violation("signatures with hash classes %s: wrapper of %s should be named %s (spec IdbHash: %s), the "
+                              "database says %s" % (b["cls"], _sig(m), exp[0][0], nm, have.get(HCLS + "::" + m)),
+                              dict(header=H[n], classes=b["cls"], spec_names=b["names"], database=have))
+                break
+        else:
+            n_ok += 1
+        out.append((tags[n], n, "-c", opts))
+    out.append((tags[ctl], ctl, "-c", opts))
+    ctx.notes["hash_collision_libraries"] = len(jobs) - 1
+    ctx.cov["evaluations"] += len(jobs) - 1
+    ctx.cov["traces_validated_against_impl"] += len(jobs) - 1
+    ctx.sample(dict(hash_classes=behs[-1]["cls"], spec_names=behs[-1]["names"], verdict="names as the spec says"), limit=8)
+    return out
+
+
 def run_check(ctx):
     build.ensure("hooked")
     work = ctx.tmp
@@ -112,6 +262,7 @@ def run_check(ctx):
     if len(dbs) < len(jobs) // 2:
         raise MachineryError("interrogate rejected %d of %d generated inputs" % (rejected, len(jobs)))
     ctx.notes["inputs_rejected_by_tool"] = rejected
+    dbs += hash_cases(ctx, work, hd, H)
 
     # ---- 3. raw-index dumps, invariants evaluated by TLC ----------------------------------------------
     groups = [dbs[i::8] for i in range(8)]
@@ -130,12 +281,24 @@ def run_check(ctx):
             if rr and st[-1].get("exit") == 0:
                 raws[tag] = rr[0]
     states = []
+    ntruth = 0
     for tag, n, b, o in dbs:
         if tag not in raws or raws[tag]["err"]:
             ctx.violation("the database interrogate wrote for %s %s %s cannot be loaded" % (n, b, " ".join(o)),
                           dict(header=H[n], tag=tag))
             continue
-        states.append(dict(id=tag, first=1, single=1, db=_idbm.raw_to_model(raws[tag])))
+        st = dict(id=tag, first=1, single=1, db=_idbm.raw_to_model(raws[tag]))
+        truth = _idbm.header_truth(H[n])
+        if truth:
+            st["truth"] = truth
+            ntruth += len(truth)
+        states.append(st)
+    cover = _idbm.field_coverage([raws[t] for t in raws if not raws[t]["err"]])
+    ctx.notes["index_field_coverage"] = cover
+    ctx.notes["ground_truth_links_checked"] = ntruth
+    never = sorted(k for k, v in cover.items() if v == 0)
+    if never:
+        raise MachineryError("index-valued fields never exercised by the generated headers: %s" % never)
     parts = [states[i::4] for i in range(4)]
 
     def ev(arg):
@@ -159,7 +322,7 @@ def run_check(ctx):
             continue
         n, b, o = info[tag]
         failed = [k for k in ("closed", "vectors", "wrappersFirst") if not v[k]] + \
-                 [k for k in ("open", "links", "backlinks", "dupTrueNames", "dupUnique", "dupWrapperNames") if v[k]]
+                 [k for k in ("open", "links", "backlinks", "owners", "names", "truth", "dupTrueNames", "dupUnique", "dupWrapperNames") if v[k]]
         names = describe(raw, v)
         ctx.violation("database of %s.h with %s %s violates %s: %s" % (n, b, " ".join(o), ", ".join(failed), names),
                       dict(header=H[n], backend=b, options=o, verdict=v))
@@ -194,7 +357,8 @@ def run_check(ctx):
         if status != "ok":
             ctx.violation("%s.h with -c %s: %s" % (n, " ".join(o), detail[:600]),
                           dict(header=H[n], options=o, status=status, detail=detail,
-                               decls=open(os.path.join(hd, tag + "_decl.cxx")).read()),
+                               decls=(open(os.path.join(hd, tag + "_decl.cxx")).read()
+                                      if os.path.exists(os.path.join(hd, tag + "_decl.cxx")) else None)),
                           classes=classes_of(H[n], o))
         if nsig:
             ctx.sample(dict(header=n + ".h", backend="-c", options=list(o), signatures_compiled=nsig, verdict=status), limit=6)
@@ -207,6 +371,14 @@ def describe(raw, v):
     """Names for the witness indices of a verdict."""
     out = []
     tabs = {k: {x["i"]: x for x in raw[k]} for k in ("w", "f", "t", "m", "e", "s")}
+    for x in list(v.get("truth") or [])[:4]:
+        src = {r["sn"]: r for r in raw["e" if x["k"] == "e" else "s"]}
+        fn = {f["i"]: f["sn"] for f in raw["f"]}
+        r = src.get(x["sn"])
+        out.append("truth: %s.%s must be %r, database links %r" % (x["sn"], x["f"], x["fn"],
+                   "<no such record>" if r is None else fn.get(r[x["f"]], r[x["f"]] or "")))
+    for x in list(v.get("owners") or [])[:3] + list(v.get("names") or [])[:3]:
+        out.append("by-name rule %s" % (x,))
     for key in ("open", "links", "backlinks", "dupTrueNames", "dupUnique", "dupWrapperNames"):
         for i in list(v.get(key) or [])[:4]:
             for k, tab in tabs.items():
@@ -238,11 +410,19 @@ def compile_one(hd, tag, raw, inc):
     src = open(gen).read()
     # -fpermissive: without -fnames the generated file declares the wrappers extern and defines them static, which
     # g++ only accepts permissively; whether generated code compiles is property C03, not this one
+    sigs = synth(raw)
+    defs = {}
+    for m in re.finditer(r"^(_in\w+)\(", src, re.M):
+        defs[m.group(1)] = defs.get(m.group(1), 0) + 1
+    multi = sorted({name for wi, name, ret, ps, un in sigs if name and defs.get(name, 0) != 1})
+    dupn = sorted({name for wi, name, ret, ps, un in sigs if name and sum(1 for s2 in sigs if s2[1] == name) > 1})
+    if multi or dupn:
+        return ("name-clash", "wrapper names of the database that the generated code does not define exactly once: %s; "
+                "names the database gives to several wrappers: %s" % ([(x, defs.get(x, 0)) for x in multi[:4]], dupn[:4]), len(sigs))
     base = subprocess.run(["g++", "-std=c++17", "-fsyntax-only", "-w", "-fpermissive"] + inc + [gen], cwd=hd, stdout=subprocess.PIPE,
                           stderr=subprocess.STDOUT, text=True)
     if base.returncode != 0:
         return "gen-broken", base.stdout[-800:], 0
-    sigs = synth(raw)
     nw = len(raw["w"])
     lines = ['#include "%s.cxx"' % tag, "#include <type_traits>"]
     named = []
@@ -274,6 +454,8 @@ def compile_one(hd, tag, raw, inc):
             if byun.get(int(off) + 1) != un:
                 problems.append("_in_unique_names says %r is wrapper %d, the database says wrapper %d has unique name %r"
                                 % (un, int(off) + 1, int(off) + 1, byun.get(int(off) + 1)))
+        if len({u for u, _ in ents}) != len(ents):
+            problems.append("_in_unique_names has duplicate keys: %s" % sorted({u for u, _ in ents if [x for x, _ in ents].count(u) > 1})[:4])
         if len(ents) != len([1 for s in sigs if s[4]]):
             problems.append("_in_unique_names has %d entries, the database %d unique names" % (len(ents), len([1 for s in sigs if s[4]])))
     decl = os.path.join(hd, tag + "_decl.cxx")
